@@ -352,6 +352,13 @@ func (ex *Exec) visitInstr(fr *frame, instr ssa.Instruction) cont {
 		store(addr, fr.get(instr.Val))
 	case *ssa.If:
 		c := fr.get(instr.Cond).(*Term)
+		if branchProf != nil && !c.IsConst() {
+			p := instr.Cond.Pos()
+			if !p.IsValid() {
+				p = instr.Pos()
+			}
+			ex.curPos = fr.fn.Name() + " " + ex.posOf(p)
+		}
 		succ := 1
 		if ex.branch(c) {
 			succ = 0
